@@ -1,7 +1,7 @@
 """C06 — set-algebra laws: commutativity, self-operations, empty and disjoint operands."""
 from . import relprops, relrun
 LEVEL = 'proof'
-W = {'rect': 0.25, 'oct': 0.3, 'share': 0.15, 'lat': 0.1, 'gp': 0.15, 'degen': 0.05, 'boxes': 0.15, 'abut': 0.2, 'punch': 0.05}
+W = {'rect': 0.25, 'oct': 0.3, 'share': 0.15, 'lat': 0.1, 'gp': 0.15, 'degen': 0.05, 'boxes': 0.15, 'abut': 0.2, 'punch': 0.05, 'frameslab': 0.12}
 
 
 def run(rep, tier, seed):
